@@ -89,6 +89,7 @@ void check_segment(gr_segment *seg, const Encoded &text, const gr_face *face, co
         {   // reach probes: how rich are the attachment forests the runs produce?
             size_t attached = 0, multi = 0, deep = 0; std::vector<int> nchild(n, 0);
             for (size_t i = 0; i < n; ++i) if (parent[i] >= 0) { ++attached; if (++nchild[size_t(parent[i])] == 2) ++multi; if (parent[size_t(parent[i])] >= 0) ++deep; }
+            { int mx = 0; for (size_t i = 0; i < n; ++i) if (nchild[i] > mx) mx = nchild[i]; maxstat("forest:max-children-of-one-slot", u64(mx)); }
             if (attached) probe("forest:segments-with-attachments"); if (multi) probe("forest:segments-with-multi-child-parent"); if (deep) probe("forest:segments-with-depth>=2");
         }
         for (size_t i = 0; c4 && i < n; ++i)
